@@ -376,8 +376,8 @@ def kill_case(run, shoot, mod, idx, rng, traced, fixed=False):
     pkgdir = twin / "p"
     names_before = set(os.listdir(pkgdir))
     how = rng.choice(["uniform", "watch", "watch", "watch"])
-    delay = rng.random() * (t_ref * (4 if traced else 0.95))
-    after_watch = rng.choice([0, 0, 0.00005, 0.0002, 0.0005, 0.001, 0.003]) * (4 if traced else 1)
+    delay = rng.random() * (t_ref * (2.5 if traced else 0.8))
+    after_watch = rng.choice([0, 0, 0, 0.00002, 0.00005, 0.0001, 0.0003, 0.001]) * (6 if traced else 1)
     proc = subprocess.Popen(cmdv, cwd=str(final.cwd(twin)), env=lib.go_env(), stdout=subprocess.DEVNULL,
                             stderr=subprocess.DEVNULL, start_new_session=True)
     t0 = time.time()
@@ -724,15 +724,24 @@ def main(run):
 
     kcases, kmism, readers = [], [], []
     if True:
-        # about a fifth of the runs finish before the signal: thorough has >= 200 really killed runs
-        nk = 260 if run.thorough() else 8
-        kseeds = [run.rng.getrandbits(48) for _ in range(nk)]
+        # many runs finish before the signal arrives (the write window is a few hundred microseconds):
+        # the thorough tier repeats until 200 runs were really killed
+        want = 200 if run.thorough() else 0
+        batch = 40 if run.thorough() else 8
+        kidx = 0
+        while True:
+            kseeds = [run.rng.getrandbits(48) for _ in range(batch)]
 
-        def onek(i):
-            return kill_case(run, shoot, mod, i, random.Random(kseeds[i]), traced=(i % 2 == 0), fixed=fixed)
-        with cf.ThreadPoolExecutor(max_workers=4) as ex:
-            kcases = list(ex.map(onek, range(nk)))
-        run.log("killed runs: %d" % len(kcases))
+            def onek(j, base=kidx, kseeds=kseeds):
+                return kill_case(run, shoot, mod, base + j, random.Random(kseeds[j]), traced=((base + j) % 2 == 0),
+                                 fixed=fixed)
+            with cf.ThreadPoolExecutor(max_workers=4) as ex:
+                kcases += list(ex.map(onek, range(batch)))
+            kidx += batch
+            really = sum(1 for k in kcases if k["killed_at"] is not None)
+            if really >= want or kidx >= 800:
+                break
+        run.log("killed runs: %d of %d attempts" % (sum(1 for k in kcases if k["killed_at"] is not None), len(kcases)))
         krend = [coq_kcase(k) for k in kcases]
         kmism = coq_verdicts(run, "c17kill", krend, ctype="kcase", fn="kmismatches", shard=25)
         for idx, v in kmism[:5]:
@@ -817,7 +826,8 @@ def main(run):
         "multi_chunk_writes": count(lambda c: sum(1 for o in c["ops"] if o[0] == "Write") >
                                     sum(1 for o in c["ops"] if o[0] == "CreateTemp")),
         "findings_measured": outcome, "l1": l1,
-        "sigkill_runs": len(kcases), "sigkill_states": crash_points,
+        "sigkill_runs": len(kcases), "sigkill_really_killed": sum(1 for k in kcases if k["killed_at"] is not None),
+        "sigkill_states": crash_points,
         "concurrent_reader_runs": len(readers), "concurrent_reads": sum(r["reads"] for r in readers),
         "trusted_base": lib.TRUSTED_BASE_COMMON + [
             "POSIX semantics of the six operations as written in Model/Fs.v [step]: rename(2) rebinds the destination "
